@@ -72,3 +72,10 @@ Definition package_of (name : str) : package :=
    directory name that is not UTF-8 yields an error item (None) *)
 Definition db_iter (listing : list dirent) : list (option package) :=
   map (fun d => if utf8_valid (de_name d) then Some (package_of (de_name d)) else None) (filter valid_pkgdir listing).
+
+(* PkgDB::open: a directory is a file-based database; a regular file is taken
+   to be a database file (not supported yet: iterating it yields nothing);
+   anything else is an error *)
+Inductive pathkind := DbDir (listing : list dirent) | DbFile | DbNothing.
+Definition db_open_iter (k : pathkind) : option (list (option package)) :=
+  match k with DbDir l => Some (db_iter l) | DbFile => Some [] | DbNothing => None end.
